@@ -9,7 +9,7 @@ from .model import FuncInfo
 from .regions import IV, UNIT, hull
 from .values import (SymNum, ComplexVal, Maybe, Obj, ExcObj, ClassRef, BuiltinType, ModRef,
                      ExtRef, BoundMethod, NativeMethod, Closure, SuperProxy, HashVal,
-                     RegexObj, Builtin)
+                     RegexObj, Builtin, OneShot)
 
 _BIN_DUNDER = {"Add": "add", "Sub": "sub", "Mult": "mul", "Div": "truediv", "Pow": "pow",
                "Mod": "mod", "FloorDiv": "floordiv", "MatMult": "matmul", "BitAnd": "and",
@@ -77,6 +77,8 @@ class OpsMixin:
             return a & b
         if opname == "Sub" and isinstance(a, (set, frozenset)) and isinstance(b, (set, frozenset)):
             return a - b
+        if isinstance(a, ExtRef) or isinstance(b, ExtRef):
+            raise Unsupported(f"operand {a if isinstance(a, ExtRef) else b} is an external value that is not modelled")
         self.raise_builtin("TypeError", f"unsupported operand type(s) for {opname}: "
                                         f"{self.type_name(a)} and {self.type_name(b)}")
 
@@ -237,6 +239,8 @@ class OpsMixin:
                 return self.call_function(fi, [a, b], {})
         if isinstance(a, (set, frozenset)) and isinstance(b, (set, frozenset)):
             return {"<": a < b, "<=": a <= b, ">": a > b, ">=": a >= b}[op]
+        if isinstance(a, ExtRef) or isinstance(b, ExtRef):
+            raise Unsupported(f"operand {a if isinstance(a, ExtRef) else b} is an external value that is not modelled")
         self.raise_builtin("TypeError", f"'{op}' not supported between instances of "
                                         f"{self.type_name(a)!r} and {self.type_name(b)!r}")
 
@@ -559,9 +563,9 @@ class OpsMixin:
             return range(*args)
         if name == "enumerate":
             start = args[1] if len(args) > 1 else kwargs.get("start", 0)
-            return [(i, x) for i, x in enumerate(self.iterate(args[0]), start)]
+            return OneShot((i, x) for i, x in enumerate(self.iterate(args[0]), start))
         if name == "zip":
-            return [tuple(t) for t in zip(*[self.iterate(a) for a in args])]
+            return OneShot(tuple(t) for t in zip(*[self.iterate(a) for a in args]))
         if name == "any":
             for x in self.iterate(args[0]):
                 if self.truth(x):
@@ -601,7 +605,7 @@ class OpsMixin:
             rev = self.truth(kwargs.get("reverse", False))
             return self.sort_values(items, key, rev)
         if name == "reversed":
-            return list(reversed(self.iterate(args[0])))
+            return OneShot(reversed(self.iterate(args[0])))
         if name == "hash":
             return HashVal(self.hash_key(args[0]))
         if name == "id":
@@ -672,13 +676,13 @@ class OpsMixin:
             raise Unsupported("vars()")
         if name == "map":
             seqs = [self.iterate(a) for a in args[1:]]
-            return [self.call(args[0], list(t), {}) for t in zip(*seqs)]
+            return OneShot(self.call(args[0], list(t), {}) for t in zip(*seqs))
         if name == "filter":
             f = args[0]
-            return [x for x in self.iterate(args[1])
-                    if self.truth(self.call(f, [x], {}) if f is not None else x)]
+            return OneShot(x for x in self.iterate(args[1])
+                           if self.truth(self.call(f, [x], {}) if f is not None else x))
         if name == "iter":
-            return self.iterate(args[0])
+            return args[0] if isinstance(args[0], OneShot) else OneShot(self.iterate(args[0]))
         if name == "next":
             seq = args[0]
             if isinstance(seq, list):
@@ -1023,6 +1027,8 @@ class OpsMixin:
             return v
         if isinstance(v, ComplexVal):
             self.raise_builtin("TypeError", f"must be real number, not complex ({fname})")
+        if isinstance(v, ExtRef):
+            raise Unsupported(f"value of {v.name} is not modelled (argument of {fname})")
         self.raise_builtin("TypeError", f"must be real number, not {self.type_name(v)} ({fname})")
 
     def _domain_guard(self, x: SymNum, bad_when, desc) -> None:
